@@ -44,7 +44,7 @@ def pool():
     dt = datetime.datetime
     scal = [0, 1, -1, 2, 7, -13, 2 ** 53 + 1, 10 ** 20, 0.5, -0.5, 2.5, 0.25, 1.0, 1024.0, 0.0, True, False, None,
             '12', '-3', '2.5', '0.25', '007', 'abc', '', '1e3x', '9007199254740993', '-123456789012345678901234567890',
-            'room 12', 'x1', 'item 7 of 9', 'total: 5', 'see march notes', '2020-01-15', '2021-03-05 06:00', '12.0', '7.', '1e2',
+            'abc%', '%', '50%', 'growth in %', 'room 12', 'x1', 'item 7 of 9', 'total: 5', 'see march notes', '2020-01-15', '2021-03-05 06:00', '12.0', '7.', '1e2',
             ERR('#DIV/0!'), ERR('#N/A'),
             dt(1900, 1, 1), dt(1900, 3, 1), dt(2020, 1, 1), dt(2020, 1, 1, 12), dt(2020, 2, 29, 6), dt(9999, 12, 31)]
     arrs = [[1, 2, 3], [9], [], [1, 2], [[1, 2], [3, 4]], [1, 'a', None], [0.5, True, '2'], [dt(2020, 1, 1), 5], [1, [2, 3]],
